@@ -175,4 +175,53 @@ theorem rdT_eq (f : Nat → Wr → Nat) (m : Mem) (ws : List (Option Wr)) (a : N
       rw [← ih (wr1 f m w) (by rw [length_wr1]; exact ha), rd_wr1]
       by_cases h : w.addr = a <;> simp [h, ha]
 
+theorem expandMask_zero (n m : Nat) : expandMask 0 n m = 0 := by
+  induction n with
+  | zero => rfl
+  | succ n ih => simp [expandMask, ih]
+
+/-- a masked write keeps a row within the word width -/
+theorem merge_lt (g n old d m : Nat) (h : old < 2 ^ (g * n)) : merge g n old d m < 2 ^ (g * n) := by
+  rcases Nat.eq_zero_or_pos g with hg | hg
+  · subst hg; simp [merge, expandMask_zero] at h ⊢; exact h
+  · apply Nat.lt_pow_two_of_testBit
+    intro b hb
+    rw [testBit_merge _ _ _ _ _ _ hg]
+    have hc : covers g n m b = false := by
+      unfold covers
+      have : ¬ b / g < n := by
+        intro hlt
+        have := (Nat.div_lt_iff_lt_mul hg).1 hlt
+        rw [Nat.mul_comm] at this; omega
+      simp [this]
+    simp only [hc, Bool.false_eq_true, if_false]
+    exact Nat.testBit_lt_two_pow (Nat.lt_of_lt_of_le h (Nat.pow_le_pow_right (by omega) hb))
+
+/-- with a single chunk per word the enable bit 0 gates the whole word -/
+theorem merge_one (g old d m : Nat) (h : old < 2 ^ g) :
+    merge g 1 old d m = if m.testBit 0 then d % 2 ^ g else old := by
+  rcases Nat.eq_zero_or_pos g with hg | hg
+  · subst hg
+    have : old = 0 := by simpa using h
+    subst this
+    simp [merge, expandMask_zero, Nat.mod_one]
+  · apply Nat.eq_of_testBit_eq
+    intro b
+    rw [testBit_merge _ _ _ _ _ _ hg]
+    unfold covers
+    by_cases hb : b < g
+    · have : b / g = 0 := Nat.div_eq_of_lt hb
+      by_cases hm : m.testBit 0 = true
+      · simp [this, hm, Nat.testBit_mod_two_pow, hb]
+      · simp [this, hm]
+    · have h1 : ¬ b / g < 1 := by
+        intro hlt
+        have := (Nat.div_lt_iff_lt_mul hg).1 hlt
+        omega
+      have ho : old.testBit b = false :=
+        Nat.testBit_lt_two_pow (Nat.lt_of_lt_of_le h (Nat.pow_le_pow_right (by omega) (by omega)))
+      by_cases hm : m.testBit 0 = true
+      · simp [h1, hm, ho, Nat.testBit_mod_two_pow, hb]
+      · simp [h1, hm]
+
 end TxV.BankMem
